@@ -25,6 +25,9 @@ from .core import (Untranslatable, bad, lname, atom, render, bind, joinc, tuple_
 
 def mk(*a): return tuple(a)
 INT, BOOL, STR, NONE = mk('int'), mk('bool'), mk('str'), mk('none')
+CHAR = mk('char')          # a one-character str where the code only ever has one character (`for i, ch in enumerate(s)`, Counter keys …)
+ELL = mk('ell')            # the constant `...`
+ELLINT = mk('ellint')      # an int or `...`
 def OPT(t): return t if t[0] == 'opt' else ('opt', t)
 def TUP(*ts): return ('tuple',) + tuple(ts)
 def LIST(t): return ('list', t)
@@ -34,7 +37,7 @@ class TypeSys:
     """type operations; `simple`: kind -> Lean type for the kinds of the domain; `recs`: record name -> Lean structure name"""
     NONE, INT = NONE, INT
     def __init__(self, simple=None, recs=None):
-        self.simple = {'int': 'Int', 'bool': 'Bool', 'str': 'List Char', 'none': 'Unit'}
+        self.simple = {'int': 'Int', 'bool': 'Bool', 'str': 'List Char', 'none': 'Unit', 'char': 'Char', 'ell': 'Unit', 'ellint': 'PyKit.EllInt'}
         self.simple.update(simple or {})
         self.recs = dict(recs or {})
 
@@ -55,13 +58,22 @@ class TypeSys:
         if b[0] == 'opt' and b[1] == a: return b
         if a[0] == 'tuple' and b[0] == 'tuple' and len(a) == len(b):
             return ('tuple',) + tuple(self.join(x, y, node) for x, y in zip(a[1:], b[1:]))
+        if {a, b} <= {INT, ELL, ELLINT}: return ELLINT
+        if a[0] == 'opt' and b in (ELL, ELLINT, INT) and a[1] in (INT, ELLINT, ELL): return OPT(ELLINT)
+        if b[0] == 'opt' and a in (ELL, ELLINT, INT) and b[1] in (INT, ELLINT, ELL): return OPT(ELLINT)
+        if a[0] == 'opt' and b[0] == 'opt': return OPT(self.join(a[1], b[1], node))
         bad(node, f'incompatible types {a} and {b}')
 
     def coerce(self, text, frm, to, node=None):
         if frm == to: return text
+        if to == ELLINT:
+            if frm == ELL: return 'PyKit.EllInt.ellipsis'
+            if frm == INT: return f'(PyKit.EllInt.int {text})'
         if to[0] == 'opt':
             if frm == NONE: return 'none'
             if frm == to[1]: return f'(some {text})'
+            if frm[0] == 'opt': return f'({atom(text)}.map (fun x => {self.coerce("x", frm[1], to[1], node)}))'
+            return f'(some {self.coerce(text, frm, to[1], node)})'
         bad(node, f'cannot use a value of type {frm} where {to} is expected')
 
     def tuple_type(self, types):
@@ -71,7 +83,7 @@ class TypeSys:
 
     def comparable(self, t):
         k = t[0]
-        if k in ('str', 'int', 'bool', 'none'): return True
+        if k in ('str', 'int', 'bool', 'none', 'char', 'lstr'): return True
         if k in ('opt', 'list'): return self.comparable(t[1])
         if k == 'tuple': return all(self.comparable(x) for x in t[1:])
         return False
@@ -81,6 +93,12 @@ def chars(s):
     if s == '': return '([] : List Char)'
     if not s.isascii() or not s.isprintable() or '"' in s or '\\' in s: raise Untranslatable(f'str literal {s!r}')
     return f'"{s}".toList'
+
+def char_lit(c):
+    if c == "'": return "'\\''"
+    if c == '\\': return "'\\\\'"
+    if ' ' <= c <= '~': return f"'{c}'"
+    return f'(Char.ofNat {ord(c)})'
 
 def proj(t, i, n):
     """component i of an n-tuple term (right-nested pairs)"""
@@ -172,6 +190,11 @@ class ObjFn(Stmts):
             is_not = isinstance(e.ops[0], ast.IsNot)
             if ty == NONE: return not is_not
             if ty[0] != 'opt': return is_not
+        at = self.attr_none_test(e, env)
+        if at:
+            obj, attr, is_not = at
+            _, fty = self.rec_attr(env[obj], attr, e)
+            if fty[0] != 'opt' and fty != NONE: return is_not
         return None
 
     # ---------------- expressions
@@ -188,6 +211,7 @@ class ObjFn(Stmts):
             if v is False: return 'false', BOOL
             if isinstance(v, int): return (f'({v} : Int)' if v >= 0 else f'(-{-v} : Int)'), INT
             if isinstance(v, str): return chars(v), STR
+            if v is Ellipsis: return '()', ELL
             bad(e, f'literal {v!r}')
         if isinstance(e, ast.Name):
             if e.id in env: return self.lvar(e.id), env[e.id]
@@ -204,6 +228,20 @@ class ObjFn(Stmts):
             items = [self.expr(x, env, B) for x in e.elts]
             if len(items) == 1: bad(e, 'one-element tuple')
             return '(' + ', '.join(t for t, _ in items) + ')', TUP(*[ty for _, ty in items])
+        if isinstance(e, ast.List):
+            if not e.elts: bad(e, 'empty list literal')
+            leaves = [x for el in e.elts for x in (el.elts if isinstance(el, ast.Tuple) else [el])]
+            if all(isinstance(x, ast.Constant) and isinstance(x.value, str) and len(x.value) == 1 for x in leaves):
+                # a list of one-character literals (or of tuples of them): characters
+                def one(el):
+                    if isinstance(el, ast.Tuple): return '(' + ', '.join(char_lit(x.value) for x in el.elts) + ')', TUP(*[CHAR] * len(el.elts))
+                    return char_lit(el.value), CHAR
+                items = [one(el) for el in e.elts]
+            else:
+                items = [self.expr(x, env, B) for x in e.elts]
+            ty = items[0][1]
+            for _, t in items[1:]: ty = self.T.join(ty, t, e)
+            return '[' + ', '.join(self.T.coerce(t, tt, ty, e) for t, tt in items) + ']', LIST(ty)
         if isinstance(e, ast.JoinedStr):
             parts = []
             for p in e.values:
@@ -218,6 +256,9 @@ class ObjFn(Stmts):
             lt, lty = self.expr(e.left, env, B)
             rt, rty = self.expr(e.right, env, B)
             if lty == STR and rty == STR and op == 'Add': return f'({lt} ++ {rt})', STR
+            if lty[0] == 'list' and rty[0] == 'list' and op == 'Add':
+                ty = self.T.join(lty, rty, e) if lty != rty else lty
+                return f'({self.T.coerce(lt, lty, ty, e)} ++ {self.T.coerce(rt, rty, ty, e)})', ty
             if lty == INT and rty == INT and op in ('Add', 'Sub', 'Mult'):
                 return f'({lt} {dict(Add="+", Sub="-", Mult="*")[op]} {rt})', INT
             return self.binop(e, op, lt, lty, rt, rty, env, B)
@@ -261,7 +302,13 @@ class ObjFn(Stmts):
         bad(e, f'subscript {ast.unparse(e)[:40]}')
 
     def contains_(self, e, L, R, env, B):
-        bad(e, f'`in` {ast.unparse(e)[:40]}')
+        """`x in xs`: a character in a str / in a list of characters"""
+        rt, rty = self.expr(R, env, B)
+        if isinstance(L, ast.Constant) and isinstance(L.value, str) and len(L.value) == 1 and (rty == STR or rty == LIST(CHAR)):
+            return f'({atom(rt)}.contains {char_lit(L.value)})'
+        lt, lty = self.expr(L, env, B)
+        if lty == CHAR and (rty == STR or rty == LIST(CHAR)): return f'({atom(rt)}.contains {atom(lt)})'
+        bad(e, f'`in` between {lty} and {rty}')
 
     def prim_call(self, e, env, B):
         bad(e, f'call {ast.unparse(e)[:60]}')
@@ -279,8 +326,12 @@ class ObjFn(Stmts):
         if op in ('In', 'NotIn'):
             t = self.contains_(e, L, R, env, B)
             return (t if op == 'In' else f'(!{t})'), BOOL
-        lt, lty = self.expr(L, env, B)
-        rt, rty = self.expr(R, env, B)
+        def one_char(x): return isinstance(x, ast.Constant) and isinstance(x.value, str) and len(x.value) == 1
+        lt, lty = (None, None) if one_char(L) else self.expr(L, env, B)
+        rt, rty = (None, None) if one_char(R) else self.expr(R, env, B)
+        # a one-character literal against a CHAR is a character
+        if lt is None: lt, lty = (char_lit(L.value), CHAR) if rty in (CHAR, OPT(CHAR)) else (chars(L.value), STR)
+        if rt is None: rt, rty = (char_lit(R.value), CHAR) if lty in (CHAR, OPT(CHAR)) else (chars(R.value), STR)
         if op in ('Eq', 'NotEq'):
             if lty[0] == 'rec' and lty == rty:
                 eq = self.u.methods.get((lty[1], '__eq__'))
@@ -296,9 +347,13 @@ class ObjFn(Stmts):
             lt, rt = self.T.coerce(lt, lty, ty, e), self.T.coerce(rt, rty, ty, e)
             if ty == NONE: return ('true' if op == 'Eq' else 'false'), BOOL
             return f'(decide ({lt} {"=" if op == "Eq" else "≠"} {rt}))', BOOL
+        if lty == OPT(INT) and rty == INT: lt, lty = self.hoist(B, f'{self.OPT_INT} {atom(lt)}'), INT      # TypeError for None
+        if rty == OPT(INT) and lty == INT: rt, rty = self.hoist(B, f'{self.OPT_INT} {atom(rt)}'), INT
         if lty == INT and rty == INT:
             return f'(decide ({lt} {dict(Lt="<", LtE="≤", Gt=">", GtE="≥")[op]} {rt}))', BOOL
         bad(e, f'comparison {op} between {lty} and {rty}')
+
+    OPT_INT = 'PyKit.intOfOpt'
 
     def cond(self, e, env, B):
         st = self.static_truth(e, env)
@@ -310,7 +365,12 @@ class ObjFn(Stmts):
         if ty == OPT(STR): return f'(match {text} with | some x => !x.isEmpty | none => false)'
         if ty[0] == 'opt' and ty[1][0] == 'rec' and not self.falsy_record(ty[1]): return f'{atom(text)}.isSome'
         if ty == NONE: return 'false'
+        t = self.truth(text, ty)
+        if t is not None: return t
         bad(e, f'truth value of {ty}')
+
+    def truth(self, text, ty):
+        return None
 
     def falsy_record(self, ty):
         """can an instance of the record be falsy (does its class define __bool__ / __len__)?"""
@@ -483,6 +543,12 @@ class ObjFn(Stmts):
 
     # ---------------- statements
     def block(self, stmts, env, k, live):
+        if stmts and isinstance(stmts[0], ast.AugAssign) and isinstance(stmts[0].target, ast.Attribute):
+            # obj.attr op= e   is   obj.attr = obj.attr op e
+            s0 = stmts[0]
+            load = ast.copy_location(ast.Attribute(value=s0.target.value, attr=s0.target.attr, ctx=ast.Load()), s0)
+            val = ast.copy_location(ast.BinOp(left=load, op=s0.op, right=s0.value), s0)
+            return self.block([ast.copy_location(ast.Assign(targets=[s0.target], value=val), s0)] + list(stmts[1:]), env, k, live)
         if stmts and isinstance(stmts[0], ast.Assert) and self.static_truth(stmts[0].test, env) is True:
             self.note(f'{self.name} line {stmts[0].lineno}: `assert {ast.unparse(stmts[0].test)}` holds by typing')
             return self.block(stmts[1:], env, k, live)
@@ -552,9 +618,60 @@ class ObjFn(Stmts):
             if changed:
                 s2 = ast.copy_location(ast.Try(body=body, handlers=[h], orelse=[], finalbody=[]), s)
                 if after:
-                    return super().try_(s2, env, lambda env2: self.block(after, env2, go, live), live | {'ret_value'})
-                return super().try_(s2, env, go, live)
-        return super().try_(s, env, go, live)
+                    return self.try_core(s2, env, lambda env2: self.block(after, env2, go, live), live | {'ret_value'})
+                return self.try_core(s2, env, go, live)
+        return self.try_core(s, env, go, live)
+
+    def try_core(self, s, env, go, live):
+        """pytr.core's `try_`, except that the protected block may assign attributes of the state when the handler ends in `raise`
+        (then the state at the time of the exception is never looked at)"""
+        if s.orelse: bad(s, 'try/else')
+        if s.finalbody: return self.try_finally(s, env, go, live)
+        if len(s.handlers) != 1: bad(s, 'several except clauses')
+        h = s.handlers[0]
+        if h.name is not None or not isinstance(h.type, ast.Name) or h.type.id not in self.CAUGHT: bad(s, f'except clause {ast.unparse(h.type) if h.type else ""}')
+        if contains(s.body + h.body, (ast.Return,)): bad(s, '`return` inside try')
+        vars_ = self.join_vars([s.body, h.body], env, live)
+        if self.STATE in vars_ and not terminates(h.body): bad(s, 'attribute assignment inside try (state at the time of the exception)')
+        brs = [lambda k: self._seq(s.body, dict(env), k, set(vars_)), lambda k: self._seq(h.body, dict(env), k, set(vars_))]
+        trees, types, views = self.run_join(brs, env, vars_, s)
+        env2 = dict(env)
+        for v, t in zip(vars_, types): env2[v] = t
+        env2.update(views)
+        ty = self.T.tuple_type(types)
+        return joinc(tuple_pat([self.lvar(v) for v in vars_]), ('tryexpr', trees[0], self.CAUGHT[h.type.id], trees[1], ty), ty, go(env2))
+
+    # ---- for loops over lists (no break / continue / return inside)
+    def for_(self, s, env, go, live):
+        if s.orelse: bad(s, 'for/else')
+        if contains(s.body, (ast.Return, ast.Break, ast.Continue)): bad(s, 'return/break/continue inside for')
+        B = []
+        xs, xty = self.expr(s.iter, env, B)
+        if xty[0] != 'list': bad(s, f'for over a value of type {xty}')
+        ety = xty[1]
+        tg = s.target
+        if isinstance(tg, ast.Name):
+            targets, ttypes, epat = [tg.id], [ety], lname(tg.id)
+        elif isinstance(tg, ast.Tuple) and all(isinstance(x, ast.Name) for x in tg.elts) and ety[0] == 'tuple' and len(ety) - 1 == len(tg.elts):
+            targets, ttypes = [x.id for x in tg.elts], list(ety[1:])
+            epat = '(' + ', '.join(lname(x) for x in targets) + ')'
+        else:
+            bad(s, 'loop target')
+        if set(targets) & assigned_names(s.body, self.writes_map): bad(s, 'loop variable assigned in the body')
+        vars_ = self.loop_vars(s, env, live, targets)
+        vars_ = sorted(set(vars_) | (set(self.join_vars([s.body], env, live | set(vars_))) - set(targets)))
+        for v in vars_:
+            if v not in env: bad(s, f'{v} is assigned in the loop but not bound before it')
+        types = [env[v] for v in vars_]
+        env_body = dict(env)
+        for x, t in zip(targets, ttypes): env_body[x] = t
+        self.check_loop_types(s, env_body, vars_, types)
+        def final(env2):
+            return ('raw', '.ok ' + tuple_pat([self.T.coerce(self.lvar(v), env2[v], t, s) for v, t in zip(vars_, types)]))
+        body = self._seq(s.body, env_body, final, set(vars_))
+        pat = tuple_pat([self.lvar(v) for v in vars_])
+        node = ('foreach', 'PyKit.forEach', atom(xs), epat, pat, body, pat)
+        return self.wrap(B, joinc(pat, node, self.T.tuple_type(types), go(dict(env))))
 
     def call_stmt(self, c, s, env, go):
         B = []
@@ -623,6 +740,14 @@ class ObjFn(Stmts):
                 return ('let', lname(alias), f'{self.lvar(obj)}.{field}', Stmts.if_(self, s2, env1, go2, live))
         return super().if_(s, env, go, live)
 
+class ObjStyle(Style):
+    def extra(self, node, ind):
+        pad = '  ' * ind
+        if node[0] == 'foreach':
+            _, fn, xs, epat, spat, body, init = node
+            return [pad + f'{fn} {xs} (fun {epat} {spat} =>'] + render(body, ind + 2, self) + [pad + f'  ) {init}']
+        raise AssertionError(node[0])
+
 # ----------------------------------------------------------------------------- driver for one function
 
 def writes_attrs(fnode, methods_writing):
@@ -635,7 +760,7 @@ def writes_attrs(fnode, methods_writing):
             return True
     return False
 
-def translate(unit, cls, sig, doc, style, fn_class=ObjFn, extra_env=None):
+def translate(unit, cls, sig, doc, style, fn_class=ObjFn, extra_env=None, state_name='self', extra_params='', prelude=()):
     """Lean text of one function / method; sets sig.ret"""
     T = unit.T
     f = sig.node
@@ -651,8 +776,8 @@ def translate(unit, cls, sig, doc, style, fn_class=ObjFn, extra_env=None):
        any(d for _, _, d in sig.params[:len(sig.params) - n_def]):
         bad(f, f'defaults of {f.name}')
     env = {p: t for p, t, _ in sig.params}
-    if extra_env: env.update(extra_env)
     if sig.rec: env['self'] = REC(sig.rec)
+    if extra_env: env.update(extra_env)
     for n in ast.walk(f):
         if isinstance(n, (ast.Global, ast.Nonlocal, ast.Lambda, ast.Yield, ast.YieldFrom, ast.Await, ast.Delete)) or \
            (isinstance(n, (ast.FunctionDef, ast.ClassDef)) and n is not f):
@@ -675,11 +800,11 @@ def translate(unit, cls, sig, doc, style, fn_class=ObjFn, extra_env=None):
     elif sig.writes: res = recty if rt == NONE else f'({T.lean_type(rt)} × {recty})'
     else: res = T.lean_type(rt)
     params = ''.join(f' ({lname(p)} : {T.lean_type(t)})' for p, t, _ in sig.params)
-    head = '' if (sig.ctor or not sig.rec) else f' (self : {recty})'
-    lines = render(tree, 1, style)
+    head = '' if (sig.ctor or not sig.rec) else f' ({state_name} : {recty})'
+    lines = ['  ' + l for l in prelude] + render(tree, 1, style)
     if sig.ctor:
         lines = [f'  let self : {recty} := default'] + lines
-    text = f'/-- {doc} -/\ndef {sig.lean}{head}{params} : Except {style.err} {atom(res)} :=\n' + '\n'.join(lines) + '\n'
+    text = f'/-- {doc} -/\ndef {sig.lean}{extra_params}{head}{params} : Except {style.err} {atom(res)} :=\n' + '\n'.join(lines) + '\n'
     if sig.ctor:
         sig.writes = False          # for callers: a constructor returns the object
     return text
